@@ -13,6 +13,9 @@ set_option linter.unusedSimpArgs false
 namespace Hyp.Score
 open Hyp Hyp.SetOps Hyp.SetSpec Hyp.QP
 
+-- for any BM25 parameters (`Score.Bm25`: `K1`, `B` of the scoring loop, `K1` of `query_weight`)
+variable [Bm25 ℝ]
+
 def Repr (k : Kind) (T : Table) (W : List Nat) (m : WMap ℝ) : Prop :=
   ∀ d v, AMap.get m d = some v → ∃ ws S, AMap.get T d = some ws ∧ S ≠ [] ∧ S.Sublist W ∧
     (∀ x ∈ S, x ∈ ws) ∧ v = (S.map (specTerm k T ws)).sum
